@@ -1130,7 +1130,10 @@ def _run(chk, tier):
                        "well-formed entry + pairs of entries whose names differ by case; names: every single name and every pair of names of the explicit alphabet "
                        "of the catalogue (hyphen, dot, underscore, digits, mixed case, prefix pairs gcc/gcc-7 env/env-2, names containing the ENV prefix, "
                        "':' '=' in section headers, keywords in another case) as environment, environment variable, component, variable (x scopes) and output "
-                       "name, and an instance with 11 stages (STAGE10, stage10.instance.conf). Every case is written and read twice by the real frontend.")
+                       "name, and an instance with 11 stages (STAGE10, stage10.instance.conf); history: every ordered pair of 16 shapes ({2,3,4,11} stages x extra component x "
+                       "with/without environments+variables+status+output) written one after the other into the SAME directory (update_existing) and then "
+                       "loaded, also through DOSINIExperimentConfiguration(updateInstanceFiles=True). Quick tier: option pairs on their native backend only. "
+                       "Every case is written and read twice by the real frontend.")
     chk.cov["exhaustive"] = True
     chk.assumptions += [
         "legitimate differences (tests/test_dosini.py:test_dump_instance): global variables migrate into the stage variables, the loaded instance has no "
